@@ -29,6 +29,7 @@ import (
 	"math/rand"
 	"runtime"
 	"strings"
+	"sync/atomic"
 	"testing"
 	"testing/synctest"
 	"time"
@@ -42,6 +43,8 @@ const (
 	vbInterval = time.Hour
 	vbProbe    = 5 * time.Minute
 )
+
+var vbDumps int32
 
 type vbCall struct {
 	tx   int
@@ -239,9 +242,13 @@ func (s *vbSUT) settle(extra map[string]interface{}) {
 			if s.stp == 1 {
 				s.stHung = true
 			}
-			if outstandingHung := s.bcHung || s.mkHung || s.stHung; outstandingHung && !s.dumped && extra != nil {
+			// A dump of all goroutines stops the world: only the first
+			// hung paths of a run carry one.
+			if hung := s.bcHung || s.mkHung || s.stHung; hung && !s.dumped && extra != nil {
 				s.dumped = true
-				extra["dump"] = vbDump()
+				if atomic.AddInt32(&vbDumps, 1) <= 12 {
+					extra["dump"] = vbDump()
+				}
 			}
 		}
 	}
